@@ -1,5 +1,7 @@
 import SamVerif.Model.ErrorSet
+import SamVerif.Model.RenderByName
 import SamVerif.Model.Layout
+import SamVerif.Model.TempCounter
 import Driver.Util
 /-! Protocol `errset` (C12): builds per-module error sets with the model of
 `samlang_errors::ErrorSet`, merges them in the given order and prints the resulting sequence.
@@ -61,23 +63,53 @@ def step (_ : Unit) (line : String) : Unit × String :=
     let pm := (groups.splitOn ";").map parseGroup
     let out := render ids pm
     ((), if out.isEmpty then "-" else ",".intercalate (out.map showErr))
+  | ["mergen", m, s, groups] =>
+    -- report in module-name order (names `M<k>`, k < 10: name order = numeric order of the handles)
+    let ms := natsOf m
+    let ids := mkIds ms (natsOf s)
+    let pm := (groups.splitOn ";").map parseGroup
+    let names := (List.range 10).filter fun k => ms.contains k
+    let out := renderByName names ids pm
+    ((), if out.isEmpty then "-" else ",".intercalate (out.map fun e =>
+      s!"M{e.modl}.sam:{e.sl + 1}:{e.sc + 1}-{e.el + 1}:{e.ec + 1}"))
   | ["layout", defs, roots] =>
-    -- defs: `name:variant|variant;...`, variant = field types joined by `+` (`i` int, number = enum), `-` = no field
+    -- defs: enum `name:variant|variant`, struct `name=fields`; variant/fields = types joined by `+` (`i` int, number = type name), `-` = none
     let parseTy (t : String) : SamVerif.Layout.Ty := if t == "i" then .int else .id t.toNat!
     let parseVariant (v : String) : List SamVerif.Layout.Ty :=
       if v == "-" then [] else (v.splitOn "+").map parseTy
     let ds : SamVerif.Layout.Defs := (defs.splitOn ";").filterMap fun d =>
       match d.splitOn ":" with
-      | [n, vs] => some (n.toNat!, (vs.splitOn "|").map parseVariant)
-      | _ => none
+      | [n, vs] => some (n.toNat!, .enum ((vs.splitOn "|").map parseVariant))
+      | _ =>
+        match d.splitOn "=" with
+        | [n, fs] => some (n.toNat!, .struct (parseVariant fs))
+        | _ => none
     let st := SamVerif.Layout.layoutAll ds (natsOf roots)
     let showV : SamVerif.Layout.VLayout → String
       | .int31 => "i" | .unboxed => "u" | .boxed => "b"
     let items := ds.map fun (n, _) =>
       match SamVerif.Layout.lookup st.done n with
-      | some l => s!"{n}:" ++ ",".intercalate (l.map showV)
+      | some (.enumL l) => s!"{n}:" ++ ",".intercalate (l.map showV)
+      | some .structL => s!"{n}:s"
       | none => s!"{n}:?"
     ((), " ".intercalate items)
+  | ["tc", start, sched] =>
+    -- temp counter: names per worker under the schedule, and the same obtained by renaming the
+    -- names of the sequential schedule (workers in blocks) with `renameTo`
+    let st := start.toNat!
+    let sc := natsOf sched
+    let workers := (List.range (sc.foldl Nat.max 0 + 1)).filter fun w => sc.count w > 0
+    let seq := workers.flatMap fun w => List.replicate (sc.count w) w
+    let showW (f : Nat → Nat → Option Nat) : String :=
+      ";".intercalate (workers.map fun w =>
+        s!"{w}:" ++ ",".intercalate ((List.range (sc.count w)).map fun c =>
+          match f w c with
+          | some n => toString n
+          | none => "?"))
+    let direct := showW (SamVerif.TempCounter.tempName st sc)
+    let viaSeq := showW fun w c =>
+      (SamVerif.TempCounter.tempName st seq w c).map (SamVerif.TempCounter.renameTo st seq sc)
+    ((), direct ++ " | " ++ viaSeq)
   | _ => ((), "bad-op")
 
 def run : IO Unit := runLoop () step
